@@ -8,11 +8,16 @@ import random
 import sys
 
 sys.path.insert(0, os.path.dirname(os.path.dirname(os.path.abspath(__file__))))
-sys.setrecursionlimit(20000)
 import lib  # noqa: E402
 
 P = lib.import_repo()
 import bundled  # noqa: E402
+
+
+def process_settings():
+    """process-wide settings an import could change and that decide what ANY grammar's parse returns or raises"""
+    return [["sys.getrecursionlimit()", str(sys.getrecursionlimit())], ["sys.getswitchinterval()", str(sys.getswitchinterval())],
+            ["ParseCache.max_cache_size", str(P.ParseCache.max_cache_size)], ["sys.gettrace()", str(sys.gettrace())]]
 
 target, pre, post, seed, nsent = sys.argv[1], sys.argv[2], sys.argv[3], int(sys.argv[4]), int(sys.argv[5])
 for m in ([] if pre == "-" else pre.split(",")):
@@ -20,6 +25,8 @@ for m in ([] if pre == "-" else pre.split(",")):
 mod = bundled.load(target)
 for m in ([] if post == "-" else post.split(",")):
     bundled.load(m)
+settings = process_settings()
+sys.setrecursionlimit(20000)      # for the harness's own deep sentences, AFTER the settings were recorded
 classes = [v for k, v in sorted(vars(mod).items()) if isinstance(v, type) and issubclass(v, P.Rule) and v.__module__ == mod.__name__]
 out = {}
 for cls, rule in [(c, r) for c in classes for r in c.rules()]:
@@ -33,4 +40,5 @@ for cls, rule in [(c, r) for c in classes for r in c.rules()]:
         res.append([s, lib.py_parse(P, rule, s, 0), lib.py_lparse(P, rule, s, 0, full=False)])
     out[cls.__name__ + "." + rule.name] = {"flag": rule.first_match_alternation,
                       "digest": hashlib.sha256(json.dumps(res).encode()).hexdigest()[:16], "results": res}
+out["__process__"] = {"flag": None, "digest": hashlib.sha256(json.dumps(settings).encode()).hexdigest()[:16], "results": [[k, v, ""] for k, v in settings]}
 print(json.dumps(out))
